@@ -326,16 +326,65 @@ def BE.words : BE → List Str
   | .not a => a.words
   | _ => []
 
+def FE.words : FE → List Str
+  | .bool e => e.words
+  | _ => []
+
+def FE.regexes : FE → List RTV.Re.RE
+  | .bool e => e.regexes
+  | _ => []
+
 def VE.words : VE → List Str
   | .ite c a b => c.words ++ a.words ++ b.words
-  | _ => []
+  | .ret f => f.words
+  | .record fs => fs.flatMap FE.words
 
 def VE.regexes : VE → List RTV.Re.RE
   | .ite c a b => c.regexes ++ a.regexes ++ b.regexes
-  | _ => []
+  | .ret f => f.regexes
+  | .record fs => fs.flatMap FE.regexes
 
 def VE.size : VE → Nat
   | .ite _ a b => 1 + a.size + b.size
   | _ => 1
+
+
+/-! ### instances of a regex (for the theorems "the culture's own next / last / this words …")
+
+`sampleLang keep cap r`: strings of the language of `r` ignoring zero-width assertions — every alternative, every
+member of a small class that `keep` accepts (the theorems keep the code points that are their own lower-casing: the
+classes were expanded for IGNORECASE by the translator), optional parts present and absent, `x*` as zero and one
+iteration, `x+` / `x{n,}` as the minimal number of iterations, `\s` as one blank, `\d` as `1`, `\w` as `a`.
+Branches that need a negated class yield nothing.  Not a complete enumeration: a finite family of instances. -/
+
+def sampleItem (keep : Nat → Bool) : RTV.Re.Item → List Nat
+  | .range lo hi =>
+    if hi - lo < 8 then ((List.range (hi - lo + 1)).map (lo + ·)).filter keep else (if keep lo then [lo] else [])
+  | .digit => [49]
+  | .space => [32]
+  | .word => [97]
+  | _ => []
+
+def sampleCls (keep : Nat → Bool) (items : List RTV.Re.Item) : List Nat := (items.flatMap (sampleItem keep)).eraseDups
+
+def sampleLang (keep : Nat → Bool) (cap : Nat) : RTV.Re.RE → List Str
+  | .eps => [[]]
+  | .cls items neg => if neg then [] else (sampleCls keep items).map fun c => [c]
+  | .seq a b => (RTV.Re.catAll (sampleLang keep cap a) (sampleLang keep cap b)).take cap
+  | .alt a b => sampleLang keep cap a ++ sampleLang keep cap b
+  | .rep a mn mx _ =>
+    let x := sampleLang keep cap a
+    ((RTV.Re.powLang x mn) ++ (if mn < mx then RTV.Re.powLang x (mn + 1) else [])).take cap
+  | .repU a mn _ =>
+    let x := sampleLang keep cap a
+    ((RTV.Re.powLang x mn) ++ (if mn = 0 then x else [])).take cap
+  | .grp _ a => sampleLang keep cap a
+  | _ => [[]]
+
+/-- code points that are their own lower-casing (without `ſ` U+017F and `ı` U+0131, which IGNORECASE adds to `s` / `i`) -/
+def lowerStable (T : Tabs) (c : Nat) : Bool := T.lowerC c == [c] && c != 383 && c != 305
+
+/-- the instances the theorems use -/
+def wordsOf (T : Tabs) (r : RTV.Re.RE) : List Str := (sampleLang (lowerStable T) 400 r).eraseDups
 
 end RTV.CultureCfg
